@@ -1,6 +1,7 @@
 package checks
 
 import (
+	"context"
 	"encoding/json"
 	"fmt"
 	"os"
@@ -42,7 +43,9 @@ func init() {
 		if bin == "" {
 			bin = "bin/vrace"
 		}
-		cmd := exec.Command(bin, "300")
+		ctx, cancel := context.WithTimeout(context.Background(), 10*time.Minute)
+		defer cancel()
+		cmd := exec.CommandContext(ctx, bin, "300")
 		cmd.Env = append(os.Environ(), "GORACE=halt_on_error=1 exitcode=66", "TZ=UTC")
 		out, err := cmd.CombinedOutput()
 		if err != nil {
@@ -69,13 +72,32 @@ var C09Trees = []string{
 	"[regexp(s, pat), regexp('zzz' + s, pat)]",
 	"timeFormat(useTimezone(t, zn), lay) + '|' + toString(hour(useTimezone(t, zn)))",
 	"[x + 1, toString(x), x == 1, vx(x)]",
+	// a callee that is a function for one thread, a number for another and missing for a third (error
+	// paths of the call machinery next to its normal path)
+	"[rate(amount) + 1, upper('q')]",
+	// struct-typed records whose (anonymous) types differ between threads
+	"rec.Name + ':' + rec.Qty + ':' + len(rec.Name)",
+	"[amount % 7, 12345678901234567890123 % amount, 1e40 % 1234567, amount % 0.3]",
 }
 
 // C09Variants: per-thread data variants for the data-dependent trees.
 var C09Variants = [][]interface{}{
-	{"pat", "^a", "zn", "UTC", "lay", "15:04", "x", 1.0, "vx", func(n float64) (float64, error) { return n * 2, nil }},
-	{"pat", "c$", "zn", "Asia/Shanghai", "lay", "15:04", "x", 2.5, "vx", func(n interface{}) (string, error) { return "any", nil }},
-	{"pat", "^zzz", "zn", "America/New_York", "lay", "2006-01-02 15", "x", "1", "vx", func(ns ...float64) (int, error) { return len(ns), nil }},
+	{"pat", "^a", "zn", "UTC", "lay", "15:04", "x", 1.0, "vx", func(n float64) (float64, error) { return n * 2, nil },
+		"rate", func(n float64) (float64, error) { return n / 4, nil }, "amount", 1000.0, "rec", struct {
+			Name string
+			Qty  int
+		}{"bolt", 3}},
+	{"pat", "c$", "zn", "Asia/Shanghai", "lay", "15:04", "x", 2.5, "vx", func(n interface{}) (string, error) { return "any", nil },
+		"rate", 0.25, "amount", 77.5, "rec", struct {
+			Qty  int
+			Name string
+		}{4, "nut"}},
+	{"pat", "^zzz", "zn", "America/New_York", "lay", "2006-01-02 15", "x", "1", "vx", func(ns ...float64) (int, error) { return len(ns), nil },
+		"amount", int64(9007199254740993), "rec", struct {
+			ID   int
+			Qty  float64
+			Name string
+		}{1, 2.5, "washer"}},
 }
 
 var c09Shared []*formula.SourceCode
@@ -218,6 +240,10 @@ func C09Scenarios(quick bool) [][]string {
 	for _, t := range []int{6, 7, 8} {
 		sc = append(sc, []string{fmt.Sprintf("eval2:%d:0", t), fmt.Sprintf("eval2:%d:1", t)}, []string{fmt.Sprintf("eval2:%d:2", t), fmt.Sprintf("eval2:%d:2", t)}, []string{fmt.Sprintf("eval2:%d:1", t), fmt.Sprintf("eval:%d:2", t)})
 	}
+	for _, t := range []int{9, 10, 11} {
+		sc = append(sc, []string{fmt.Sprintf("eval2:%d:0", t), fmt.Sprintf("eval2:%d:1", t)}, []string{fmt.Sprintf("eval2:%d:1", t), fmt.Sprintf("eval2:%d:2", t)}, []string{fmt.Sprintf("eval:%d:2", t), fmt.Sprintf("eval2:%d:0", t)})
+	}
+	sc = append(sc, []string{"eval:9:1", "eval:9:2", "eval:4"}, []string{"!cold", "eval:10:0", "eval:10:1"})
 	sc = append(sc, []string{"parse:3", "parse:4"}, []string{"parse:3", "bad:3"}, []string{"bad:3", "bad:4"}, []string{"eval:6:0", "parse:4"})
 	// cold start: the shared trees are parsed anew before every execution, so that the very first
 	// evaluations of a tree are the concurrent ones (lazily filled per-node state is cold)
@@ -255,7 +281,10 @@ func judgeSched(c SchedCase) *eng.Fail {
 	}
 	threads, cold := threadsOf(c.Threads)
 	for _, n := range threads {
-		sequentialObs(n)
+		if obs := sequentialObs(n); strings.Contains(obs, sched.BlockedForever) {
+			delete(c09Sequential, n)
+			return eng.F("C09/deadlock", "%s, run alone after the other bodies of this scenario had run alone, waits forever for a lock that an earlier call left locked: %s", n, tail200(obs))
+		}
 	}
 	if cold {
 		if err := C09Setup(); err != nil {
@@ -282,6 +311,9 @@ func schedVerdict(threads []string, x *sched.Exec) *eng.Fail {
 		return eng.F("C09/deadlock", "threads %v deadlocked: no thread could proceed", threads)
 	}
 	for i, n := range threads {
+		if strings.Contains(x.Obs[i], sched.BlockedForever) {
+			return eng.F("C09/deadlock", "thread %d (%s) waits forever for a lock that an earlier call left locked: %s", i, n, tail200(x.Obs[i]))
+		}
 		if x.Obs[i] != c09Sequential[n] {
 			return eng.F("C09/result-differs", "thread %d (%s) observed\n  %s\nsequentially it observes\n  %s", i, n, tail200(x.Obs[i]), tail200(c09Sequential[n]))
 		}
@@ -296,7 +328,9 @@ func schedVerdict(threads []string, x *sched.Exec) *eng.Fail {
 			continue
 		}
 		done[n] = true
-		if got := C09Body(n)(); got != c09Sequential[n] {
+		if got := C09Body(n)(); strings.Contains(got, sched.BlockedForever) {
+			return eng.F("C09/deadlock", "after this schedule, %s run alone waits forever for a lock that was left locked: %s", n, tail200(got))
+		} else if got != c09Sequential[n] {
 			return eng.F("C09/state-left-behind", "after this schedule, %s run alone observes\n  %s\ninstead of\n  %s", n, tail200(got), tail200(c09Sequential[n]))
 		}
 	}
@@ -340,8 +374,17 @@ func runC09(w *eng.W) {
 		}
 		full := sc
 		sc, cold := threadsOf(full)
+		leftLocked := false
 		for _, n := range sc {
-			sequentialObs(n)
+			if obs := sequentialObs(n); strings.Contains(obs, sched.BlockedForever) {
+				delete(c09Sequential, n)
+				leftLocked = true
+			}
+		}
+		if leftLocked {
+			// reported (and re-judged) through the ordinary case path
+			c09Sched.Do(w, SchedCase{Threads: full, Bound: bound})
+			continue
 		}
 		outcomes := map[string]bool{}
 		failed := false
@@ -448,9 +491,21 @@ func c09Post(p *eng.Parent) {
 	if p.Tier == "thorough" {
 		iters = "1500"
 	}
-	cmd := exec.Command(bin, iters)
+	// the free-running pass has no scheduler that could notice a deadlock: a time limit stands in for it
+	limit := 10 * time.Minute
+	if p.Tier == "thorough" {
+		limit = 40 * time.Minute
+	}
+	ctx, cancel := context.WithTimeout(context.Background(), limit)
+	defer cancel()
+	cmd := exec.CommandContext(ctx, bin, iters)
 	cmd.Env = append(os.Environ(), "GORACE=halt_on_error=1 exitcode=66", "TZ=UTC")
 	out, err := cmd.CombinedOutput()
+	if ctx.Err() != nil {
+		p.Res.FailRawParent("race", map[string]interface{}{"leg": "B", "iterations": iters}, eng.F("C09/deadlock", "the free-running pass (bodies in up to 16 goroutines) did not finish within %v: goroutines wait for each other or for a lock that is never released", limit))
+		p.Extra["leg_b"] = "timed out"
+		return
+	}
 	var rep map[string]interface{}
 	lines := strings.Split(strings.TrimSpace(string(out)), "\n")
 	if len(lines) > 0 {
